@@ -211,6 +211,7 @@ def build_list(rng, pal, subs, answers, ordered, partial_credit=True, grouping=N
     from mitxgraders import ListGrader
     sg = [s.grader for s in subs] if len(subs) > 1 else subs[0].grader
     g = ListGrader(answers=answers, subgraders=sg, ordered=ordered, partial_credit=partial_credit, grouping=grouping or [], **kw)
+    g.debuglog = []      # normally created by __call__; lets the harness call check() directly
     desc = {'type': 'list', 'cfg': {'ordered': ordered, 'partial_credit': partial_credit, 'grouping': grouping or []}, 'subs': [s.desc for s in subs]}
     return Built(g, desc, 'list')
 
